@@ -521,7 +521,7 @@ def rule_leftover(repo: Repo, rid: str, specs: List[str]) -> RuleResult:
                 top = g.loop_of[top]
             after = C.reachable_from(g, top, follow=lambda a, b, l: not (a == top and l == "iter"))
             inloop = C.reachable_from(g, top, follow=lambda a, b, l: not (a == top and l == "done")) - {top}
-            used_after = False
+            use_nodes = set()
             for n in after - inloop - {top}:
                 st = g.stmt[n]
                 if st is None:
@@ -533,8 +533,14 @@ def rule_leftover(repo: Repo, rid: str, specs: List[str]) -> RuleResult:
                     if isinstance(x, ast.Name) and x.id == acc:
                         # a use in a store / call / raise-guard, not merely a re-initialisation
                         if not (isinstance(st, ast.Assign) and any(isinstance(t, ast.Name) and t.id == acc for t in st.targets)):
-                            used_after = True
-            flushed[acc] = used_after
+                            use_nodes.add(n)
+            # every way out of the function after the loop passes a use of the accumulator (flush or rejection)
+            dom = C.dominators(g)
+            outs = [n for n in (after - inloop - {top}) if g.kind[n] == "return"] + \
+                   [n for n, _ in g.pred[g.exit] if n in (after - inloop) and g.kind[n] != "return"]
+            if top in [n for n, _ in g.pred[g.exit]]:
+                outs.append(top)
+            flushed[acc] = bool(use_nodes) and all((dom[o] & use_nodes) or o in use_nodes for o in outs)
         if all(flushed.values()):
             r.ok({"function": f.qn, "accumulators": sorted(accs), "flushed_after_loop": True})
         else:
@@ -648,4 +654,12 @@ def rules(repo: Repo, tier: str) -> List[RuleResult]:
         rule_dupkeys(repo, "C01.dupkeys", ["lisp_parsers.parsing_utils::parse_untyped_predicate", "models.numerical_expression::construct_expression_tree"]),
         rule_order(repo),
         rule_leftover(repo, "C01.leftover", ["DomainParser.parse_types", "DomainParser.parse_constants", "lisp_parsers.parsing_utils::parse_signature"]),
-    ]
+    ] + _type_rules(repo)
+
+
+def _type_rules(repo: Repo) -> List[RuleResult]:
+    """the declared types are part of C01 ('multi-level type trees in any declaration order'): the parse_types rules of C06"""
+    from . import c06
+    return [rule_typedlist(repo, "C01.types.typedlist", ["DomainParser.parse_types"], lookup_required=False),
+            c06.rule_closure(repo).as_rule("C01.types.closure"), c06.rule_identity(repo).as_rule("C01.types.identity"),
+            c06.rule_parentlink(repo).as_rule("C01.types.parentlink"), c06.rule_root(repo).as_rule("C01.types.root")]
